@@ -111,7 +111,7 @@ def main(tier: str, seed: int) -> int:
     quick = tier == 'quick'
     scncheck.mc(rep, 'Multisig', 'mc', INV, run_mc, consts={'MaxN': 3 if quick else 4}, workers=16)
     import multiprocessing as mp
-    n = 2000 if quick else 40000
+    n = 10000 if quick else 60000
     with mp.get_context('fork').Pool(14) as pool:
         cases = [c for ch in pool.map(record_random, [(seed * 37 + i, n // 28) for i in range(28)]) for c in ch]
     scncheck.judge(rep, 'Multisig', INV, cases, 'random multisig scenarios', consts={'MaxN': 0})
